@@ -26,12 +26,14 @@ type ClaimsDesc struct {
 	NoMeas    *uint     `json:"nomeas,omitempty"`
 	Nonce     *HexBytes `json:"nonce,omitempty"`
 	Nonce2    *HexBytes `json:"nonce2,omitempty"`
+	Nonce3    *HexBytes `json:"nonce3,omitempty"`
 	InstID    *HexBytes `json:"inst,omitempty"`
 	VSI       *string   `json:"vsi,omitempty"`
 	Extra     *int64    `json:"extra,omitempty"`
 	Wide      []int     `json:"wide,omitempty"`  // xw: which of the 20 extra claims are present
 	Stamp     *int64    `json:"stamp,omitempty"` // xw: a time claim (seconds), encoded with a CBOR tag
 	XSw       bool      `json:"xsw,omitempty"`   // components are of the sim type whose encoder can fail
+	K         *KDesc    `json:"k,omitempty"`     // xk: the additional claims of plain kinds
 	// Defects lists what was deliberately broken (informational).
 	Defects []string `json:"defects,omitempty"`
 }
@@ -45,6 +47,83 @@ type SwDesc struct {
 	Signer  *HexBytes `json:"sid,omitempty"`
 	MDesc   *string   `json:"md,omitempty"`
 	XTra    *string   `json:"xtra,omitempty"` // xc: the field the profile's own component type adds
+}
+
+// KDesc: the xk family's additional claims.
+type KDesc struct {
+	Name      string    `json:"name,omitempty"`
+	Count     uint32    `json:"count,omitempty"`
+	Flag      bool      `json:"flag,omitempty"`
+	Blob      *HexBytes `json:"blob,omitempty"` // nil: absent; empty: present and empty
+	List      []string  `json:"list,omitempty"`
+	ListEmpty bool      `json:"list_empty,omitempty"` // present and empty
+	Inner     bool      `json:"inner,omitempty"`
+	InnerN    *int64    `json:"inner_n,omitempty"`
+	InnerS    string    `json:"inner_s,omitempty"`
+	Must      int64     `json:"must"`
+	Epoch     uint64    `json:"epoch,omitempty"`
+}
+
+func (k *KDesc) apply(x *XKClaims) {
+	x.Name, x.Count, x.Flag, x.Must = k.Name, k.Count, k.Flag, k.Must
+	x.KEpoch = KEpoch(k.Epoch)
+	if k.Blob != nil {
+		x.Blob = append([]byte{}, (*k.Blob)...)
+	}
+	if len(k.List) > 0 {
+		x.List = append([]string{}, k.List...)
+	} else if k.ListEmpty {
+		x.List = []string{}
+	}
+	if k.Inner {
+		x.Inner = &XKInner{S: k.InnerS}
+		if k.InnerN != nil {
+			v := *k.InnerN
+			x.Inner.N = &v
+		}
+	}
+}
+
+func genK(r *Rng) *KDesc {
+	k := &KDesc{}
+	if r.Chance(1, 2) {
+		k.Name = textPool[r.Intn(len(textPool))]
+	}
+	if r.Chance(1, 2) {
+		k.Count = uint32(r.Intn(1 << 20))
+	}
+	k.Flag = r.Chance(1, 2)
+	switch r.Intn(4) {
+	case 0:
+		k.Blob = hp(r.Bytes(r.Range(1, 40)))
+	case 1:
+		k.Blob = hp([]byte{})
+	}
+	switch r.Intn(4) {
+	case 0:
+		for n := r.Range(1, 4); n > 0; n-- {
+			k.List = append(k.List, textPool[r.Intn(len(textPool))])
+		}
+	case 1:
+		k.ListEmpty = true
+	}
+	if r.Chance(1, 2) {
+		k.Inner = true
+		if r.Chance(1, 2) {
+			v := int64(r.Intn(1<<20)) - 1000
+			k.InnerN = &v
+		}
+		if r.Chance(1, 2) {
+			k.InnerS = textPool[r.Intn(len(textPool))]
+		}
+	}
+	if r.Chance(2, 3) {
+		k.Must = int64(r.Intn(1<<30)) - 1<<20
+	}
+	if r.Chance(1, 2) {
+		k.Epoch = uint64(1 + r.Intn(1<<30))
+	}
+	return k
 }
 
 const (
@@ -69,6 +148,8 @@ func profileNameOf(prof string) string {
 		return xwName
 	case "xc":
 		return xcName
+	case "xk":
+		return xkName
 	case "xu":
 		return xuName
 	}
@@ -233,6 +314,9 @@ func genValidClaims(r *Rng, prof string) ClaimsDesc {
 	if prof != "p1" && prof != "xp1" && prof != "xc" && r.Chance(1, 6) {
 		d.XSw = true
 	}
+	if prof == "xk" {
+		d.K = genK(r)
+	}
 	if prof == "xc" {
 		for i := range d.Sw {
 			if r.Chance(2, 3) {
@@ -308,6 +392,13 @@ func applyDefect(r *Rng, d *ClaimsDesc, defect string) bool {
 			return false
 		}
 		d.Nonce2 = hp(r.Bytes(32))
+		if d.Nonce != nil && r.Chance(1, 2) {
+			// the same challenge repeated, then (sometimes) a different one: [A, A] / [A, A, B]
+			d.Nonce2 = hp(append([]byte{}, (*d.Nonce)...))
+			if r.Chance(2, 3) {
+				d.Nonce3 = hp(r.Bytes(32))
+			}
+		}
 	case "bad-instid-len":
 		b := r.Bytes(badLen(r, 33))
 		if len(b) > 0 {
@@ -486,7 +577,11 @@ func swToIface(sw []SwDesc) []psatoken.ISwComponent {
 	out := make([]psatoken.ISwComponent, len(sw))
 	for i, c := range sw {
 		if c.Nil {
-			out[i] = (*psatoken.SwComponent)(nil)
+			if c.Version != nil {
+				out[i] = nil // the interface itself is nil
+			} else {
+				out[i] = (*psatoken.SwComponent)(nil)
+			}
 			continue
 		}
 		out[i] = buildSwComponent(c)
@@ -641,6 +736,11 @@ func buildP2(d *ClaimsDesc, canonical string) (*psatoken.P2Claims, error) {
 				return nil, errUnbuildable
 			}
 		}
+		if d.Nonce3 != nil {
+			if err := n.Add(append([]byte{}, (*d.Nonce3)...)); err != nil {
+				return nil, errUnbuildable
+			}
+		}
 		c.Nonce = &n
 	}
 	if d.InstID != nil {
@@ -707,6 +807,16 @@ func (d *ClaimsDesc) buildRaw() (psatoken.IClaims, error) {
 		return x, nil
 	case "xc":
 		return buildP2(d, xcName)
+	case "xk":
+		b, err := buildP2(d, xkName)
+		if err != nil {
+			return nil, err
+		}
+		x := &XKClaims{P2Claims: *b}
+		if d.K != nil {
+			d.K.apply(x)
+		}
+		return x, nil
 	case "xw":
 		b, err := buildP2(d, xwName)
 		if err != nil {
@@ -782,6 +892,9 @@ func (d *ClaimsDesc) buildViaSetters() (out psatoken.IClaims, oerr error) {
 		if err := s(); err != nil {
 			return nil, err
 		}
+	}
+	if xk, ok := c.(*XKClaims); ok && d.K != nil {
+		d.K.apply(xk)
 	}
 	if xw, ok := c.(*XWClaims); ok {
 		if d.Stamp != nil {
